@@ -384,7 +384,7 @@ func TestC11(t *testing.T) {
 		runCase(t, "strings", i, p, func(t *testing.T) rt.Result { return c11World(t, p) })
 	}
 	// longer random strings (thorough: up to 5 and 6)
-	n := c.N(3000, 120000)
+	n := c.N(3000, 300000)
 	for i := 0; i < n; i++ {
 		if !c.Mine("long", i) {
 			continue
